@@ -25,7 +25,7 @@ def canon(line):
     return " | ".join([head + (" " + raw_ops if raw_ops else "")] + segs)
 
 
-def run_walks(seed, tier, label, n_quick, n_thorough, adversarial=False, strict=False, length=80, snap_after_svc=False, replay_model=True, profile=None):
+def run_walks(seed, tier, label, n_quick, n_thorough, adversarial=False, strict=False, length=80, snap_after_svc=False, replay_model=True, profile=None, plans=False):
     rng = Rng(seed, "walks:" + label)
     n = n_quick if tier == "quick" else n_thorough
     h = Proc([HARNESS_BIN], "harness")
@@ -38,6 +38,14 @@ def run_walks(seed, tier, label, n_quick, n_thorough, adversarial=False, strict=
                      profile=profile(i) if profile else ("backlog" if i % 5 == 3 else ("qos2tiny" if i % 5 == 4 else "default")))
             w.run()
             walks.append(w)
+        if plans:
+            # the planned interruptions: every stage of every kind of operation, on two connections in a row
+            from walk import PlanWalk, plan_matrix
+            for j, pl in enumerate(plan_matrix(tier)):
+                h.ask("session.reset")
+                w = PlanWalk(Rng(seed, f"plan:{j}"), h, pl)
+                w.run()
+                walks.append(w)
     finally:
         h.close()
     if not replay_model:
@@ -1021,6 +1029,7 @@ def receive_maximum_resume_family(report, prop="C09", label="receive-maximum-res
     impl = harness_batch(reqs)
     model = driver_batch(reqs)
     ok, mon, bad, mbad = True, True, 0, 0
+    order, order_ok_n = True, 0
     for k, st in enumerate(starts):
         end = starts[k + 1] if k + 1 < len(starts) else len(reqs)
         sc, rm2, K, q, hk, drain = scripts[k]
@@ -1049,12 +1058,23 @@ def receive_maximum_resume_family(report, prop="C09", label="receive-maximum-res
                 stream += unhex(f["bytes"])
                 pkts, _, _ = split_packets(stream)
                 for first, body in pkts[seen:]:
-                    if first >> 4 == 3 and (first >> 1) & 3 > 0:
+                    is_head = first >> 4 in (8, 10) or (first >> 4 == 3 and body[2:3] == b"q")
+                    if first >> 4 == 3 and (first >> 1) & 3 > 0 and not is_head:
                         tl = (body[0] << 8) | body[1]
                         inflight.add((body[2 + tl] << 8) | body[3 + tl])
                         resent += 1
+                    elif first >> 4 == 3 and (first >> 1) & 3 > 0:
+                        tl = (body[0] << 8) | body[1]
+                        inflight.add((body[2 + tl] << 8) | body[3 + tl])
+                    if is_head and resent < K and prop == "C10" and order_ok_n < 6:
+                        order = False
+                        order_ok_n += 1
+                        report.add_finding(Finding(prop, "mon:" + label + "-order", {"clause": "overtakes-retransmission", "head": hk, "drain": drain},
+                                                   f"the {hk} operation at the head of the user queue is sent when only {resent} of the {K} publishes that were in flight have been retransmitted "
+                                                   f"(the others wait for the Receive Maximum of {rm2}): after a reconnect the in-flight publishes go first",
+                                                   reqs[st + 1:i + 1] + ["# impl: " + impl[i][:200]]))
                 seen = len(pkts)
-                if len(inflight) > rm2:
+                if len(inflight) > rm2 and prop != "C10":
                     mon = False
                     if mbad < 6:
                         report.add_finding(Finding(prop, "mon:" + label, {"clause": "receive-maximum-exceeded", "head": hk, "drain": drain},
@@ -1065,6 +1085,9 @@ def receive_maximum_resume_family(report, prop="C09", label="receive-maximum-res
         report.count(label + ".retransmitted", resent)
     report.count(label + ".scenarios", len(scripts))
     report.obligation("corr:" + label, "correspondence", ok, f"{len(scripts)} scripted resumed sessions, every response compared")
+    if prop == "C10":
+        report.obligation("mon:" + label + "-order", "monitor", order, "nothing submitted later is sent before every in-flight publish has been retransmitted, also while flow control holds them back")
+        return ok and order
     report.obligation("mon:" + label, "monitor", mon, "unacknowledged QoS>0 publishes on the resumed connection never exceed the Receive Maximum of its CONNACK")
     return ok and mon
 
